@@ -1,19 +1,32 @@
 //! C12: hedge. script = [max, mode, ncalls, nd, d_1 .. d_nd, (op a b)*]
-//!   mode mod 4: 0 (or 3) = HedgeDelay::Fixed(d_1 ms)  1 = Immediate  2 = Dynamic(|k| d_k ms, 0 beyond nd)
-//!   (mode / 4) mod 2 = 1: gated readiness — every CLONE of the inner service is not ready until
-//!   the script says so (the instance the caller polled ready, used by the primary, is ready)
+//!   mode mod 4: 0 (or 3) = HedgeDelay::Fixed(d_1)  1 = Immediate  2 = Dynamic(|k| d_k, 0 beyond nd)
+//!   (mode / 4) mod 2 = 1: gated readiness — every attempt CLONE of the inner service is not ready
+//!   until the script says so (the instance the caller polled ready, used by the primary, is ready)
+//!   (mode / 8) mod 4: how the calls reach the middleware: 0 = every call on its own Hedge value
+//!   (layer.layer(..)), 1 = all calls through ONE Hedge value, 2 = call i through a clone of the
+//!   value used by call i-1 (chain of clones), 3 = even calls through one value, odd calls through
+//!   a fresh clone of it
+//!   (mode / 32) mod 2 = 1: the delays d_k are microseconds (else milliseconds); d_k >= 10^18 means
+//!   Duration::MAX in either unit
 //!   op 1 Poll i | 2 Drop i | 3 Advance a ms | 4 Complete a b (a = 16*i + n: the n-th inner call
 //!   made for call i; b: 0 ok, 1 err, 2 panic; the value carried by ok/err is a)
 //!   | 5 Ready a (a = 16*i + k: the clone used by hedge attempt k of call i becomes ready)
-//! Call i is made with request value i on its own hedge service (same layer, same shared inner
-//! service state), so the n-th inner call of call i is the n-th inner call with request i.
-//! Hedge attempt k of call i is the k-th clone of call i's inner service that is asked for
+//!   | 6 ReadyErr a (a = 16*i + k: poll_ready of that clone returns Err(64 + a) from now on; the
+//!     attempt then fails without making an inner call)
+//!   | 7 SyncPanic a (a = 16*i + n: the n-th inner call made for call i panics -- synchronously,
+//!     inside inner.call(), if it has not been made yet; like Complete a 2 if it is in flight)
+//! Call i is made with request value i, so the n-th inner call of call i is the n-th inner call
+//! with request i. An inner-service instance cloned while the harness polls the future of call i
+//! is an attempt clone of call i (lineage i); instances cloned anywhere else (by the harness, in
+//! Hedge::call, in Hedge::clone) are handle instances: always ready, like the one the primary uses.
+//! Hedge attempt k of call i is the k-th attempt clone of call i that is asked for
 //! readiness (attempt tasks run in spawn order and ask for readiness first).
 //! trace per event = [r, v, ns, nl, wake mask, in-flight, now_ms]
 //!   r: -1 no poll, 0 pending, 1 Ok(v), 2 Err(Inner(v)), 3 Err(AllAttemptsFailed(v)), 5 panicked,
 //!      9 nothing to poll;  ns = sum over calls i of (inner calls started for request i during
 //!      this event, including the settle after it) * 32^i;  nl = same for hedge attempts
 //!      launched (clones that asked for readiness for the first time)
+use std::cell::Cell;
 use std::collections::HashMap;
 use std::future::Future;
 use std::pin::Pin;
@@ -26,29 +39,37 @@ use verif_harness::*;
 
 type Res = Result<i128, HedgeError<i128>>;
 
+thread_local! {
+    /// index of the hedged call whose future the harness is polling right now (-1: none)
+    static CUR: Cell<i128> = const { Cell::new(-1) };
+}
+
 #[derive(Default)]
 struct RShared {
     gated: bool,
     ready: Mutex<HashMap<(i128, u32), bool>>,
+    fail: Mutex<HashMap<(i128, u32), bool>>,
     wakers: Mutex<HashMap<(i128, u32), Waker>>,
     asked: Mutex<HashMap<i128, u32>>,
     /// lineage (= call index) of every clone that asked for readiness for the first time
     asks: Mutex<Vec<i128>>,
+    /// (request, n): the n-th inner call with that request panics inside call()
+    syncp: Mutex<HashMap<(i128, u32), bool>>,
+    ncalls: Mutex<HashMap<i128, u32>>,
 }
 
-/// GatedInner plus scripted readiness of clones. `lineage` = index of the hedged call the
-/// instance was built for; the instance built by the harness is the `original`.
+/// GatedInner plus scripted readiness of attempt clones. `lineage` = index of the hedged call
+/// whose future made the clone (-1: a handle instance, always ready).
 struct RInner {
     g: GatedInner,
     sh: Arc<RShared>,
     lineage: i128,
-    original: bool,
     slot: Option<u32>,
 }
 
 impl Clone for RInner {
     fn clone(&self) -> Self {
-        RInner { g: self.g.clone(), sh: self.sh.clone(), lineage: self.lineage, original: false, slot: None }
+        RInner { g: self.g.clone(), sh: self.sh.clone(), lineage: CUR.with(|c| c.get()), slot: None }
     }
 }
 
@@ -57,7 +78,7 @@ impl Service<i128> for RInner {
     type Error = i128;
     type Future = Pin<Box<dyn Future<Output = Result<i128, i128>> + Send>>;
     fn poll_ready(&mut self, cx: &mut Context<'_>) -> Poll<Result<(), i128>> {
-        if self.original {
+        if self.lineage < 0 {
             return Poll::Ready(Ok(()));
         }
         let slot = match self.slot {
@@ -72,7 +93,9 @@ impl Service<i128> for RInner {
             }
         };
         let key = (self.lineage, slot);
-        if !self.sh.gated || self.sh.ready.lock().unwrap().get(&key).copied().unwrap_or(false) {
+        if self.sh.fail.lock().unwrap().get(&key).copied().unwrap_or(false) {
+            Poll::Ready(Err(64 + 16 * self.lineage + slot as i128))
+        } else if !self.sh.gated || self.sh.ready.lock().unwrap().get(&key).copied().unwrap_or(false) {
             Poll::Ready(Ok(()))
         } else {
             self.sh.wakers.lock().unwrap().insert(key, cx.waker().clone());
@@ -80,18 +103,37 @@ impl Service<i128> for RInner {
         }
     }
     fn call(&mut self, req: i128) -> Self::Future {
-        self.g.call(req)
+        let n = {
+            let mut c = self.sh.ncalls.lock().unwrap();
+            let e = c.entry(req).or_insert(0);
+            let n = *e;
+            *e += 1;
+            n
+        };
+        let fut = self.g.call(req);     // the call is made (and counted) ...
+        if self.sh.syncp.lock().unwrap().get(&(req, n)).copied().unwrap_or(false) {
+            drop(fut);
+            panic!("scripted synchronous panic in inner.call()");   // ... but never returns a future
+        }
+        fut
     }
 }
 
+const DMAX: i128 = 1_000_000_000_000_000_000;
+
 fn run(s: &[i128]) -> Vec<i128> {
     let max = zn(s, 0).clamp(0, 16) as usize;
-    let mode_raw = zn(s, 1).clamp(0, 7);
+    let mode_raw = zn(s, 1).clamp(0, 63);
     let mode = mode_raw % 4;
     let gated = (mode_raw / 4) % 2 == 1;
+    let share = (mode_raw / 8) % 4;
+    let micros = (mode_raw / 32) % 2 == 1;
     let ncalls = zn(s, 2).clamp(0, 4) as usize;
     let nd = zn(s, 3).clamp(0, 16) as usize;
-    let ds: Vec<u64> = (0..nd).map(|j| zn(s, 4 + j).clamp(0, 100_000) as u64).collect();
+    let dur = move |d: i128| -> Duration {
+        if d >= DMAX { Duration::MAX } else if micros { Duration::from_micros(d as u64) } else { Duration::from_millis(d as u64) }
+    };
+    let ds: Vec<Duration> = (0..nd).map(|j| dur(zn(s, 4 + j).clamp(0, DMAX))).collect();
     let rt = paused_rt();
     let t_base = now_ns();
     rt.block_on(async move {
@@ -103,15 +145,16 @@ fn run(s: &[i128]) -> Vec<i128> {
             1 => b.no_delay(),
             2 => {
                 let ds2 = ds.clone();
-                b.delay_fn(move |k| {
-                    Duration::from_millis(if k >= 1 { ds2.get(k - 1).copied().unwrap_or(0) } else { 0 })
-                })
+                b.delay_fn(move |k| if k >= 1 { ds2.get(k - 1).copied().unwrap_or(Duration::ZERO) } else { Duration::ZERO })
             }
-            _ => b.delay(Duration::from_millis(ds.first().copied().unwrap_or(0))),
+            _ => b.delay(ds.first().copied().unwrap_or(Duration::ZERO)),
         };
         let layer = b.build();
         let mut callers: Vec<Option<Manual<Res>>> = (0..ncalls).map(|_| None).collect();
         let mut created = vec![false; ncalls];
+        // the Hedge value shared by the calls (share modes 1..3)
+        let mut shared = None;
+        let mut ncreated = 0usize;
         let mut tr = Vec::new();
         let off = (4 + nd).min(s.len());
         let evs: Vec<(i128, i128, i128)> =
@@ -127,17 +170,38 @@ fn run(s: &[i128]) -> Vec<i128> {
                     let i = a as usize;
                     if !created[i] {
                         created[i] = true;
-                        let orig = RInner { g: inner.clone(), sh: rsh.clone(), lineage: i as i128, original: true, slot: None };
-                        let mut svc = layer.layer(orig);
+                        let fresh = || layer.layer(RInner { g: inner.clone(), sh: rsh.clone(), lineage: -1, slot: None });
+                        let mut local = None;
+                        let svc = match share {
+                            0 => local.insert(fresh()),
+                            1 => shared.get_or_insert_with(fresh),
+                            2 => {
+                                let c = match shared.take() { Some(p) => { let c = p.clone(); drop(p); c } None => fresh() };
+                                local.insert(c)
+                            }
+                            _ => {
+                                let base = shared.get_or_insert_with(fresh);
+                                if ncreated % 2 == 0 { base } else { let c = base.clone(); local.insert(c) }
+                            }
+                        };
                         futures::future::poll_fn(|cx| svc.poll_ready(cx)).await.ok();
-                        callers[i] = Some(Manual::new(svc.call(i as i128)));
+                        // a panic escaping Hedge::call() itself is reported like a call future that panics at its first poll
+                        let made = std::panic::catch_unwind(std::panic::AssertUnwindSafe(|| svc.call(i as i128)));
+                        if share == 2 { shared = local.take(); }
+                        callers[i] = Some(match made {
+                            Ok(fut) => Manual::new(fut),
+                            Err(_) => Manual::new(async { panic!("Hedge::call panicked") }),
+                        });
+                        ncreated += 1;
                     }
                     let m = callers[i].as_mut().unwrap();
                     if op == 1 {
                         if !m.alive() {
                             r = 9;
                         } else {
+                            CUR.with(|c| c.set(i as i128));
                             let fin = m.poll();
+                            CUR.with(|c| c.set(-1));
                             if !fin { r = 0; } else if m.panicked { r = 5; } else {
                                 match m.done.take().unwrap() {
                                     Ok(x) => { r = 1; v = x; }
@@ -158,11 +222,23 @@ fn run(s: &[i128]) -> Vec<i128> {
                     if (i as usize) >= ncalls { continue; }
                     sh.complete(i, k, match b { 0 => Outcome::Ok(a), 1 => Outcome::Err(a), _ => Outcome::Panic });
                 }
-                5 => {
+                7 => {
                     if a < 0 { continue; }
                     let (i, k) = (a / 16, (a % 16) as u32);
                     if (i as usize) >= ncalls { continue; }
-                    rsh.ready.lock().unwrap().insert((i, k), true);
+                    if sh.complete(i, k, Outcome::Panic) {
+                        rsh.syncp.lock().unwrap().insert((i, k), true);
+                    }
+                }
+                5 | 6 => {
+                    if a < 0 { continue; }
+                    let (i, k) = (a / 16, (a % 16) as u32);
+                    if (i as usize) >= ncalls { continue; }
+                    if op == 5 {
+                        rsh.ready.lock().unwrap().insert((i, k), true);
+                    } else {
+                        rsh.fail.lock().unwrap().insert((i, k), true);
+                    }
                     if let Some(w) = rsh.wakers.lock().unwrap().remove(&(i, k)) { w.wake(); }
                 }
                 _ => continue,
